@@ -144,10 +144,10 @@ func gen(tier string) []proto.Item {
 		// identifier bases at their wrap-around points: perturbed per-probe identifier, instead of the genuine reply
 		r := rng{1, 4}
 		type bs struct {
-			name           string
-			ipid, echo     uint32
-			rnd            []uint32
-			ack            uint32
+			name       string
+			ipid, echo uint32
+			rnd        []uint32
+			ack        uint32
 		}
 		bases := []bs{{"zero", 0, 0, []uint32{0, 1, 2, 3, 4, 5}, 0}, {"max", 65535, 65534, []uint32{0xffffffff, 0xfffffffe, 0, 1, 0xfffffffd, 2}, 0xffffffff},
 			{"wrap-inside", 65533, 65535, []uint32{0xfffffffe, 0xffffffff, 0, 1, 2, 3}, 0xfffffffd}}
@@ -253,7 +253,9 @@ var F = &proto.Family{ID: "C01", Gen: gen, Check: check,
 		}
 		return 1
 	},
-	Nontrivial: func(it *proto.Item) bool { return len(it.Scn.Hops) > 0 || len(it.Scn.Inject) > 0 || len(it.Scn.Then) > 0 }}
+	Nontrivial: func(it *proto.Item) bool {
+		return len(it.Scn.Hops) > 0 || len(it.Scn.Inject) > 0 || len(it.Scn.Then) > 0
+	}}
 
 func init() {
 	F.Register("model_checking",
